@@ -260,6 +260,8 @@ class Engine:
         """run thunk() along every feasible path; returns list of PathResult"""
         results = []
         work = [[]]
+        from . import tensor as _tensor
+        _tensor._CURRENT_ENGINE[0] = self
         while work:
             prefix = work.pop()
             self.path = Path(prefix)
@@ -998,7 +1000,7 @@ class Engine:
             h = self.policy.get(("ghost_attr", env.func_key(), target.attr))
             if h is not None:
                 v = h(self, v)
-            self.setattr(o, target.attr, v)
+            self.setattr(o, self.mangle(target.attr, env), v)
         elif isinstance(target, ast.Subscript):
             c = self.eval(target.value, env)
             k = self.eval_index(target.slice, env)
@@ -1220,7 +1222,17 @@ class Engine:
 
     def ex_Attribute(self, node, env):
         o = self.eval(node.value, env)
-        return self.getattr(o, node.attr)
+        return self.getattr(o, self.mangle(node.attr, env))
+
+    def mangle(self, attr, env):
+        """private name mangling of __attr inside a class body"""
+        if attr.startswith("__") and not attr.endswith("__"):
+            e = env
+            while e is not None:
+                if e.func is not None and e.func.cls is not None:
+                    return "_" + e.func.cls.name.lstrip("_") + attr
+                e = e.parent
+        return attr
 
     def ex_Subscript(self, node, env):
         c = self.eval(node.value, env)
